@@ -163,7 +163,12 @@ template <typename D> struct Replayer {
           regs[r] = regs[st["a"].i()] || regs[st["b"].i()];
       } else if (op == "widenjoin") { // acc := acc widen (acc join b): the engine's use of widening
         D j = regs[st["a"].i()] | regs[st["b"].i()];
-        regs[r] = regs[st["a"].i()] || j;
+        if (st.has("ts")) {
+          crab::thresholds<z_number> ts(50);
+          for (size_t q = 0; q < st["ts"].size(); ++q) ts.add(ikos::bound<z_number>(num(st["ts"][q])));
+          regs[r] = regs[st["a"].i()].widening_thresholds(j, ts);
+        } else
+          regs[r] = regs[st["a"].i()] || j;
       } else if (op == "narrow") { // a && (a & b): narrowing of a decreasing pair
         D m = regs[st["a"].i()] & regs[st["b"].i()];
         regs[r] = regs[st["a"].i()] && m;
